@@ -88,6 +88,23 @@ def hp_chunk(alphabet, length, first):
             if not ok:
                 a.bad("hexary_node_classification", "a hexary node read back does not classify as written or yields another key path", nibbles=ns,
                       terminator=term)
+                continue
+            # the node a traversal simulates when it stops i nibbles into that path is keyed by HP(rest of the path, same flag)
+            try:
+                from trie.exceptions import TraversedPartialPath
+                from trie.utils.nodes import annotate_node
+                ann = annotate_node(node)
+                for i in range(1, len(ns) + (1 if term else 0)):
+                    a.evals += 1
+                    sim = TraversedPartialPath((), ann, tuple(ns[:i])).simulated_node
+                    rest = tuple(ns[i:])
+                    if (bytes(sim.raw[0]) != mpt.hp(rest, term) or tuple(extract_key(sim.raw)) != rest or sim.raw[1] != node[1]
+                            or (term and tuple(sim.suffix) != rest) or (not term and tuple(map(tuple, sim.sub_segments)) != (rest,))):
+                        a.bad("simulated_node_key_wrong", "the node simulated for a traversal that stops inside a leaf / extension path is not keyed by the "
+                              "HP encoding of the rest of the path", nibbles=ns, terminator=term, consumed=i)
+                        break
+            except Exception as e:  # noqa
+                a.bad("hexary_node_raised", f"simulating the rest of a leaf / extension path raised {type(e).__name__}", nibbles=ns, terminator=term)
     return a.evals, a.viols, dict(a.stats)
 
 
@@ -284,7 +301,8 @@ def run(tier, seed):
     L = 5 if thorough else 4
     bits_max = 16 if thorough else 12
     rep.rule = (f"every nibble sequence of length <= {L} over all 16 nibbles and of length <= 8 over {{0,1,f}}, with and without terminator: "
-                "encode == Yellow-Paper HP, decode(encode(x)) == x, node built with compute_*_key classifies and yields the path; every byte string "
+                "encode == Yellow-Paper HP, decode(encode(x)) == x, node built with compute_*_key classifies and yields the path, and the node simulated after consuming any "
+                "part of that path is keyed by HP(rest); every byte string "
                 f"of length <= 2 through bytes<->nibbles and bytes<->bits; every bit string of length <= {bits_max} through the key-path packing; "
                 "every kv node (path <= 10 bits), branch and leaf node parse back; boundary probes at lengths 31..1000 (six fill patterns each) for nibble paths, "
                 "bit paths, kv nodes and byte strings; the malformed family (empty, None, type bytes 3..255, branch "
